@@ -9,7 +9,7 @@ CLAIMED = {
     "C14": dict(
         category="other",
         technique="CrossHair/z3 bounded symbolic execution: frame conditions of every kernel, lattice laws of every domain, the real worklist solvers under a solver-chosen permutation, detectors on contexts with symbolic content",
-        text="Narrow claim. State isolation: for all constants the kernels leave module-level universes / key lists / enum tuples unchanged and return fresh objects. Order independence: union/intersection of every domain are commutative, associative, idempotent, absorbing and monotone (unique fixpoint), and the real GroupIndices solvers give the same sets for every permutation of the initial worklists of a 4-block function. Read-only detectors: each of the nine detectors leaves contexts with symbolic content unchanged.",
+        text="Narrow claim. State isolation: for all constants the kernels leave module-level universes / key lists / enum tuples unchanged and return fresh objects. Order independence: union/intersection of every domain are commutative, associative, idempotent, absorbing and monotone (unique fixpoint), and the real GroupIndices solvers give the same sets for every permutation of the initial worklists of a 4-block function. Read-only detectors: each of the nine detectors leaves contexts with symbolic content unchanged. Operation order: for a contract whose three functions share two subroutines, analysed through init_tealer_from_config with a solver-chosen sequence of operations, every path detector reports for an operation the paths it reports when that operation is analysed alone.",
         note="hash-seed, set-iteration order across processes and byte-identical JSON are outside the technique (properties of interpreter runs) and are not claimed",
         design_ref="DESIGN.md section 4 C14", engine="K",
     ),
@@ -30,8 +30,8 @@ CLAIMED = {
     "C17": dict(
         category="other",
         technique="CrossHair/z3 bounded symbolic execution of whole real analyses on one-block functions with symbolic immediates (tier W) and of the kind/index kernels for all constants",
-        text="Narrow claim: no internal error for any value of an immediate tealer interprets (comparison constants, gtxn indices, gtxns offsets, intc indices, dig/cover/popn depths, scratch slots); for GroupSize/GroupIndex/Fee constants the whole pipeline result is moreover exactly the implied set/bound for every constant.",
-        note="layout-dependent crashes, CLI, printers and files have no symbolic dimension and are outside; their graph-level causes are checked by C04/C05/C12 and every S/G worker reports tealer exceptions",
+        text="Narrow claim: no internal error for any value of an immediate tealer interprets (comparison constants, gtxn indices, gtxns offsets, intc indices, dig/cover/popn depths, scratch slots); for GroupSize/GroupIndex/Fee constants the whole pipeline result is moreover exactly the implied set/bound for every constant; the transaction-context printer (its two file-writing helpers stubbed) finishes and annotates the entry block with the computed sets for every constant.",
+        note="layout-dependent crashes, the CLI, the other printers and files have no symbolic dimension and are outside; their graph-level causes are checked by C04/C05/C12 and every S/G worker reports tealer exceptions",
         design_ref="DESIGN.md section 4 C17", engine="K",
     ),
     "C11": dict(
@@ -44,7 +44,7 @@ CLAIMED = {
     "C19": dict(
         category="other",
         technique="CrossHair/z3 bounded symbolic execution of _verify_version / _detect_execution_mode / cost properties with the declared version symbolic over 1..8, per opcode and field against an independent AVM table cross-checked with pyteal",
-        text="For every opcode, transaction field and global field of TEAL v1-v8: flagged exactly when the declared version is below the introduction version; instruction modes; mode detection and mixture on symbolic mode lists; contract type; default version; per-version opcode costs and block cost sums.",
+        text="For every opcode, transaction field and global field of TEAL v1-v8: flagged exactly when the declared version is below the introduction version; instruction modes; mode detection and mixture on symbolic mode lists; contract type; default version; per-version opcode costs and block cost sums; whole parse_teal with a solver-chosen instruction placed in live or unreachable code (after return, never-called subroutine, skipped by b): flags, mode and mixture message are those of the whole text.",
         note="`method`, size-dependent costs and field-level modes are outside the claim",
         design_ref="DESIGN.md section 4 C19", engine="K",
     ),
